@@ -1,7 +1,8 @@
 (* C09, calibration-file half: error classes of the loader model and well-formedness of what it accepts. *)
 Require Import ZArith List Bool String QArith.
 Import ListNotations.
-Require Import LV.CalFile.CalFileModel LV.CalFile.CalFileProofs LV.CalFile.CalLoadWf.
+Require Import LV.CalFile.CalFileModel LV.CalFile.CalFileProofs LV.CalFile.CalLoadWf LV.CalFile.CalLoadErrClass.
+Require LV.PropTree.PropModel LV.PropTree.YamlFault LV.PropTree.YamlFaultProofs.
 Open Scope Z_scope.
 
 (* Termination of the model needs no theorem: [load] is a Gallina function defined by structural
@@ -48,3 +49,35 @@ Print Assumptions load_ok_wf_satisfiable.
 Theorem descending_frequencies_rejected : load (VNew 1 0) (Some (t8_doc [2#1; 1#1])) = Err EBadMsg.
 Proof. exact descending_rejected. Qed.
 Print Assumptions descending_frequencies_rejected.
+
+(* ---------------------------------------------------------------- fixes DO91 / DO90 *)
+
+(* After DO91 (a property key that is no property expression is a syntax error of the document) EVERY
+   failure of the loader behind an accepted version line is EBADMSG, for every document tree - refused
+   property keys and recursive aliases inside "properties" included; sharpens load_errors_after_version.
+   The system class is left to allocation and I/O failures, which this model does not contain. *)
+Theorem load_errors_after_version_badmsg : forall v ver d e, version_of v = Ok ver -> load v d = Err e -> e = EBadMsg.
+Proof. exact load_version_ok_badmsg. Qed.
+Print Assumptions load_errors_after_version_badmsg.
+
+Theorem load_bad_property_key_is_badmsg :
+  load (VNew 1 0) (Some (NM [(key_scalar "properties", NM [(key_scalar "p", key_scalar "1"); (bad_key, key_scalar "2")])]))
+  = Err EBadMsg
+  /\ load (VNew 1 0) (Some (NM [(key_scalar "properties", NQ [NCYC])])) = Err EBadMsg.
+Proof. exact (conj bad_property_key_is_badmsg recursive_alias_is_badmsg). Qed.
+Print Assumptions load_bad_property_key_is_badmsg.
+
+(* "fails ... while leaving no partial object behind" for vnaproperty_import_yaml_from_string / _from_file
+   (after DO90), on the total importer model of PropTree/YamlFault.v: every parser result (syntax error,
+   empty document, any document tree, recursive aliases included), every failure (refused key however it
+   is reported, allocation failure at any request, whatever the failing call leaves in the tree under
+   construction) and every previous content of the caller's root: after a failed import the root is
+   exactly what it was.  (Also Properties_C14.import_failure_leaves_root_unchanged; the witnesses that the
+   code before DO90 did not have the property are Properties_C14.model_variant_before_DO90_*_refuted.) *)
+Theorem yaml_import_failure_leaves_no_partial_object
+        (key_err : PropModel.ecode -> YamlFault.ierr) (junk : PropModel.node -> PropModel.node)
+        (l : YamlFault.xload) (root : PropModel.node) (f : YamlFault.fault) :
+  YamlFault.is_ok (snd (YamlFault.import_public_x key_err junk l root f)) = false ->
+  fst (YamlFault.import_public_x key_err junk l root f) = root.
+Proof. exact (YamlFaultProofs.import_failure_leaves_root_unchanged_lemma key_err junk l root f). Qed.
+Print Assumptions yaml_import_failure_leaves_no_partial_object.
